@@ -65,6 +65,8 @@ def check_deck(deck, seed, flags=(), lattice=(), n_points=60, want=('C01', 'C08'
     zero = sorted(c.id for c in deck.cells.values() if c.universe == 0 and c.imp == 0)
     m = re.search(r'importance is equal to zero:\s*\[([^\]]*)\]', out)
     noted = sorted(int(x) for x in m.group(1).split(',') if x.strip()) if m else []
+    # the property speaks of level-0 cells only: zero-importance cells of filling universes may be listed as well
+    noted = [n for n in noted if n not in deck.cells or deck.cells[n].universe == 0]
     if 'C12' in want and noted != zero:
         fail('C12', 'end-of-run-note', f'zero-importance cells {zero}, note lists {noted}')
     for c in deck.cells.values():
@@ -103,9 +105,14 @@ def check_deck(deck, seed, flags=(), lattice=(), n_points=60, want=('C01', 'C08'
                 bc_fail('entry-on-a-flagged-surface-bounding-no-converted-cell',
                      f'surface {s.bc}{sid} is used by no cell of non-zero importance; the entry designates {sid}, '
                      'which is not a SURF of the file')
-            elif merged:
+            elif merged and min(merged) < sid:
+                # known finding F5: the flagged card duplicates a surface with a SMALLER number, which is the one kept
                 bc_fail('entry-on-a-surface-number-removed-by-deduplication',
                      f'surface {s.bc}{sid} was merged into {merged[:2]}; the entry still designates {sid}')
+            elif merged:
+                # not F5: the flagged surface has the smallest number among its duplicates and must have been kept
+                bc_fail('flagged-surface-with-the-smallest-number-of-its-duplicates-was-removed',
+                     f'surface {s.bc}{sid} was merged into the larger number(s) {merged[:2]}; the entry still designates {sid}')
             else:
                 bc_fail('entry-designates-a-surface-that-is-not-written',
                      f'surface {s.bc}{sid}: written surfaces {sorted(f.surfaces)[:12]}')
@@ -148,7 +155,11 @@ def check_deck(deck, seed, flags=(), lattice=(), n_points=60, want=('C01', 'C08'
         if top.imp == 0:
             if vols and 'C01' in want:
                 fail('C01', 'point-of-zero-importance-cell-in-a-volume', f'cell {loc[0]} imp=0, volumes {vols}', pt)
+            if vols and 'C12' in want:
+                fail('C12', 'point-of-zero-importance-cell-in-a-volume', f'cell {loc[0]} imp=0, volumes {vols}', pt)
             continue
+        if not vols and 'C12' in want:
+            fail('C12', 'point-of-a-level-0-cell-of-non-zero-importance-in-no-volume', f'owner path {loc}', pt)
         if len(vols) != 1:
             if 'C01' in want or 'C06' in want:
                 fail('C06' if 'C06' in want else 'C01', 'point-not-in-exactly-one-volume', f'owner path {loc}, volumes {vols}', pt)
